@@ -33,7 +33,7 @@ def F(p, size, seed, **kw):
 def mixed_tree(r, variant):
     spec = [{"p": "src", "k": "d"},
             F("src/a", 0, 1, mode=0o600), F("src/b", 1, 2, mode=0o755, mtime_ns=1_400_000_000_000_000_123),
-            F("src/c", 200000, 3, mode=0o640, mtime_ns=1_300_000_000_999_999_999, xattrs={"user.x": "1"}),
+            F("src/c", 200000, 3, mode=0o640, mtime_ns=-86_399_999_999_912, xattrs={"user.x": "1"}),      # (a time before 1970: legal, and awkward for unsigned arithmetic)
             {"p": "src/sp", "k": "f", "size": 3 << 20, "seed": 4, "segs": [[4096, 5000], [2 << 20, 70000]], "sync": True, "mode": 0o644,
              "mtime_ns": 1_200_000_000_000_000_001},
             {"p": "src/sub", "k": "d"}, F("src/sub/d", 5000, 5, mode=0o444, mtime_ns=1_100_000_000_500_000_000),
